@@ -74,14 +74,18 @@ func (s *srcIter[T]) state() (calls int, stopped bool) {
 	return s.calls, s.stopped
 }
 
-func intSrc(items []int) *srcIter[int] { return &srcIter[int]{items: items, conv: func(v int) int { return v }} }
+func intSrc(items []int) *srcIter[int] {
+	return &srcIter[int]{items: items, conv: func(v int) int { return v }}
+}
 func strSrc(items []int) *srcIter[string] {
 	return &srcIter[string]{items: items, conv: func(v int) string { return fmt.Sprintf("doc:%03d", v) }}
 }
 func tupOf(v int) *openfgav1.Tuple {
 	return &openfgav1.Tuple{Key: &openfgav1.TupleKey{Object: fmt.Sprintf("doc:%03d", v), Relation: "viewer", User: "user:a"}}
 }
-func tupSrc(items []int) *srcIter[*openfgav1.Tuple] { return &srcIter[*openfgav1.Tuple]{items: items, conv: tupOf} }
+func tupSrc(items []int) *srcIter[*openfgav1.Tuple] {
+	return &srcIter[*openfgav1.Tuple]{items: items, conv: tupOf}
+}
 func keySrc(items []int) *srcIter[*openfgav1.TupleKey] {
 	return &srcIter[*openfgav1.TupleKey]{items: items, conv: func(v int) *openfgav1.TupleKey { return tupOf(v).GetKey() }}
 }
